@@ -50,8 +50,8 @@ ASSUMPTIONS = [
     "models whose SDL the builder rejects (C11 findings) are exercised through the code route only",
 ]
 BOUNDS = {
-    "quick": {"features": 2, "generic_executor_upto": 1, "type_lookup_upto": 2},
-    "thorough": {"features": 3, "generic_executor_upto": 2, "type_lookup_upto": 2},
+    "quick": {"features": 2, "generic_executor_upto": 1, "type_lookup_upto": 2, "disabled_upto": 2},
+    "thorough": {"features": 3, "generic_executor_upto": 2, "type_lookup_upto": 2, "disabled_upto": 2},
 }
 TIME_CAP = {"quick": 150, "thorough": 1500}
 
@@ -420,7 +420,8 @@ def parts_for(features, route, bounds):
         parts.append("generic")
     if len(features) <= bounds["type_lookup_upto"]:
         parts.append("lookup")
-    parts.append("disabled")
+    if len(features) <= bounds["disabled_upto"]:
+        parts.append("disabled")
     return parts
 
 
